@@ -18,7 +18,13 @@ def build(ctx, S, name, mask, fl):
     fbs = os.path.join(d, name + '.fbs'); open(fbs, 'w').write(c01gen.render_fbs(S))
     rc, out = ctx.gen(fbs, d, opts=('-a', '--json'))
     if rc != 0: return None, out
-    dc = t2.parse(open(os.path.join(d, name + '_verifier.h')).read())
+    try:
+        dc = t2.parse(open(os.path.join(d, name + '_verifier.h')).read())
+    except t2.TranslateError as e:
+        # the generated verifier no longer has the shape the descriptor language covers: the theorem cannot be applied to it;
+        # report that and go on with the dynamic cross-run (which looks for the failing buffer)
+        ctx.broken_obligation('T2:' + str(e)[:120], {'schema_fbs': c01gen.render_fbs(S), 'translator_error': str(e)})
+        dc = {'desc': c01gen.expected_descriptor(S), 'tables': [t['name'] for t in S['tables']], 'unions': [], 'structs': {}}
     tmpl = open(os.path.join(lib.ROOT, 'harness', 'evolution_main.c.in')).read()
     vd, dd = [], []
     for t in S['tables']:
@@ -91,6 +97,7 @@ def run(ctx):
                 ctx.violation('old-reader-crash', 'old reader/printer crashed on a buffer of the extended schema: %s' % a[:300], rep); continue
             da, pa = re.match(r'V 0 D (.*) P (-?\d+)$', a).groups()
             db, pb = re.match(r'V 0 D (.*) P (-?\d+)$', b).groups()
+            db = re.sub(r'\w+\.\w+!=[+-][0-9a-f]*;', '', db)
             if int(pa) < 0:
                 ctx.violation('old-printer-error', 'old JSON printer reports an error on a buffer of the extended schema (%s)' % pa, rep)
             if da != db:
@@ -116,6 +123,14 @@ def run(ctx):
                 ctx.violation('new-reader-crash', 'new reader/printer crashed on a buffer of the old schema: %s' % b[:300], rep); continue
             da, pa = re.match(r'V 0 D (.*) P (-?\d+)$', a).groups()
             db, pb = re.match(r'V 0 D (.*) P (-?\d+)$', b).groups()
+            # new scalar fields of B read from an old buffer: absent, and equal to the declared default bit for bit
+            for tn, fn, pres, hx in re.findall(r'(\w+)\.(\w+)!=([+-])([0-9a-f]*);', db):
+                fdef = [f for t in B['tables'] if t['name'] == tn for f in t['fields'] if f['name'] == fn][0]
+                want = c01gen.default_bytes(fdef['type'], fdef.get('default', 0)).hex()
+                if pres != '-' or hx != want:
+                    ctx.violation('new-field-default', 'new code reads new field %s.%s (%s%s) of an old buffer as %s%s, declared default bytes %s' % (
+                        tn, fn, fdef['type'], ' = ' + c01gen.default_literal(fdef['type'], fdef['default']) if 'default' in fdef else '', pres, hx, want), rep)
+            db = re.sub(r'\w+\.\w+!=[+-][0-9a-f]*;', '', db)
             # fields deprecated in B print as absent on the B side: mask them on the A side is not possible, so compare only when B deprecates nothing
             if not any(f.get('deprecated') for t in B['tables'] for f in t['fields']) and da != db:
                 ctx.violation('shared-field-differs-old-buffer', 'new reader and old reader disagree on a shared field of an old buffer', rep)
